@@ -29,17 +29,24 @@ type verifSnap struct {
 	npanic  int
 	nstmts  int
 	vblock  bool
+	hasL    bool // label L of the enclosing function is visible
 }
 
 func verifSnapshot(cb *CodeBuilder) verifSnap {
 	return verifSnap{
 		stkLen: cb.stk.Len(), base: cb.current.base, scope: cb.current.scope, block: cb.current.codeBlock,
 		label: cb.current.label, fn: cb.current.fn, nlabels: len(cb.current.labels), npanic: len(cb.current.panicCalls),
-		nstmts: len(cb.current.stmts), vblock: cb.InVBlock(),
+		nstmts: len(cb.current.stmts), vblock: cb.InVBlock(), hasL: verifHasLabel(cb, "L"),
 	}
 }
 
+func verifHasLabel(cb *CodeBuilder, name string) bool {
+	_, ok := cb.LookupLabel(name)
+	return ok
+}
+
 func verifAssertBalanced(tag string, pre, post verifSnap, consumed, produced, stmts int) {
+	vp.Assert("C16."+tag+".labelctx", post.hasL == pre.hasL)
 	vp.Assert("C16."+tag+".stack", post.stkLen == pre.stkLen-consumed+produced)
 	vp.Assert("C16."+tag+".base", post.base == pre.base)
 	vp.Assert("C16."+tag+".scope", post.scope == pre.scope)
@@ -252,6 +259,13 @@ func VerifH_C16_constructs() {
 		cb.Val(verifNonConst("p", types.Typ[types.Int])).EndStmt()
 	}
 	cb.current.flows = vp.Int("flows0", 0, 31)
+	if vp.Choose("prelabel", 2) == 1 {
+		// the enclosing function already has a label (used, so that End reports nothing)
+		l := cb.NewLabel(token.NoPos, token.NoPos, "L")
+		cb.Label(l)
+		cb.Val(verifNonConst("p", types.Typ[types.Int])).EndStmt()
+		cb.Goto(l)
+	}
 	budget := 0
 	if vp.Thorough() {
 		budget = 1 // one nested construct inside the body
